@@ -409,13 +409,17 @@ def _build_cp_atom_payload(sequence, restrict, payload_form=False, interner=None
     # and that everything is specific.
 
     lget = locked.get
+    # flags an earlier specific entry has already touched; for those the
+    # global value is no longer what a later specific entry starts from.
+    touched = set()
 
     for key, neg, pos in reversed(l):
         # only grab the deltas; if a + becomes a specific -
-        neg = tuple(x for x in neg if lget(x, True))
-        pos = tuple(x for x in pos if not lget(x, False))
+        neg = tuple(x for x in neg if x in touched or lget(x, True))
+        pos = tuple(x for x in pos if x in touched or not lget(x, False))
         if neg or pos:
             new_l.append(f(key, neg, pos))
+            touched.update(neg, pos)
 
     return tuple(new_l)
 
